@@ -2,6 +2,7 @@ package lexh
 
 import (
 	"bytes"
+	"crypto/sha1"
 	"fmt"
 	"regexp"
 	"sort"
@@ -1073,8 +1074,8 @@ var coreRoles = map[string]bool{
 
 // Forms enumerates the stream. Every form goes unmodified to every role of its syntax; the main modifiers (level 1) go to
 // the core roles and to one more role taken in turn; the others (level 2) and the nestings go to one role taken in turn
-// (thorough tier: levels 0 and 1 to every role, level 2 to the core roles and one more; every form nested in every
-// other). In the quick tier the inner forms of the nestings are one form of each category, chosen by the seed.
+// (thorough tier: level 1 to every role too, level 2 to two roles in turn; every form nested in every other, in one
+// role in turn). In the quick tier the inner forms of the nestings are one form of each category, chosen by the seed.
 // nRandom seeded-random cases follow: random nestings (depth up to 3) with random modifiers, token deletions and
 // duplications, in random roles.
 func Forms(r *proto.Rand, quick bool, nRandom int) []FormCase {
@@ -1085,10 +1086,10 @@ func Forms(r *proto.Rand, quick bool, nRandom int) []FormCase {
 		rolesBySyn[ro.syn] = append(rolesBySyn[ro.syn], ro)
 	}
 	var out []FormCase
-	seen := map[string]bool{}
+	seen := map[[20]byte]bool{}
 	emit := func(s subject, ro role) {
 		b := ro.build(s.src)
-		k := b.Line()
+		k := sha1.Sum([]byte(b.Line()))
 		if seen[k] {
 			return
 		}
@@ -1103,10 +1104,13 @@ func Forms(r *proto.Rand, quick bool, nRandom int) []FormCase {
 	place := func(s subject, syn byte) {
 		rs := rolesBySyn[syn]
 		level := s.level
-		if all && level > 0 {
-			level--
+		if all && level == 1 {
+			level = 0
 		}
 		turn++
+		if all && level == 2 && s.mod != "nested" { // thorough: two roles in turn
+			emit(s, rs[(turn+len(rs)/2)%len(rs)])
+		}
 		switch level {
 		case 0:
 			for _, ro := range rs {
